@@ -112,7 +112,65 @@ def run(ctx):
             k = 2 * cl.index(False) if cl != "ERR" else 0
             ctx.fail("round trip broken in a warm history: %s -> %s, then %s -> %s" % (ops[k], res[k] if k < len(res) else "?", ops[k + 1] if k + 1 < len(ops) else "?", res[k + 1] if k + 1 < len(res) else "?"),
                      c[:-1] + [" ".join(ops[: k + 2])], raw[:300], label="impl")
-    ctx.evaluations = 2 * (len(fwd) + len(warm0))
+    # file level: main -a, then main -u in a fresh process with the same salt and options, restores the canonicalised input
+    import base64, ipaddress, json
+    from . import linegen, ipref
+    froms, metas = [], []
+    for k in range(6 if q else 60):
+        lines = [l.rstrip("\r\n") + "\n" for l in linegen.ip_lines(rng, 8, near=True, tails=False)]    # open() would translate \r\n (outside the model)
+        lines += ["private 10.%d.%d.%d 172.16.9.%d 192.168.%d.1 and 11.22.33.%d\n" % tuple(rng.randrange(256) for _ in range(6))]
+        opts = {"ip": True, "salt": rng.choice(["s", "T0p", "netconan"]), "hostbits": rng.choice([None, 0, 8, 12]), "private": rng.random() < 0.5,
+                "prefixes": rng.choice([None, None, ["10.0.0.0/8"], ["0.0.0.0/0"]]), "networks": rng.choice([None, None, ["11.22.0.0/16"], ["203.0.113.0/24", "1.2.3.4"]])}
+        froms.append(["files", "main", json.dumps(opts), json.dumps([["f.cfg", base64.b64encode("".join(lines).encode()).decode(), {}]])])
+        metas.append((lines, opts))
+    r1 = vlib.run_impl(froms)
+    backs, idx = [], []
+    for j, (o, (lines, opts)) in enumerate(zip(r1, metas)):
+        try:
+            d = json.loads(o)
+            anon = d["out"]["f.cfg"]
+        except Exception:
+            ctx.fail("main -a failed on a generated file", {"options": opts}, o[:200], label="impl-file")
+            continue
+        o2 = dict(opts, ip=False, undo=True)
+        backs.append(["files", "main", json.dumps(o2), json.dumps([["f.cfg", base64.b64encode(anon.encode()).decode(), {}]])])
+        idx.append(j)
+    r2 = vlib.run_impl(backs)
+    for j, o in zip(idx, r2):
+        lines, opts = metas[j]
+        try:
+            und = json.loads(o)["out"]["f.cfg"]
+        except Exception:
+            ctx.fail("main -u failed on anonymized output", {"options": opts}, o[:200], label="impl-file")
+            continue
+        nets = (opts["networks"] or []) + (["10.0.0.0/8", "172.16.0.0/12", "192.168.0.0/16"] if opts["private"] else [])
+        nets_i = ["%d/%s" % (int(ipaddress.ip_network(n).network_address), ipaddress.ip_network(n).prefixlen) for n in nets]
+        # canonical spelling of every token the forward pass replaces; everything else verbatim
+        exp = []
+        for l in lines:
+            res, last = [], 0
+            for a, b, v, kind in linegen.v6_tokens(l):
+                res += [l[last:a], str(ipaddress.IPv6Address(v))]
+                last = b
+            res.append(l[last:])
+            l2 = "".join(res)
+            res, last = [], 0
+            for a, b, v in linegen.v4_tokens(l2):
+                if ipref.is_mask_ref(v) or any(ipref.in_net(v, n) for n in nets_i):
+                    continue
+                res += [l2[last:a], str(ipaddress.IPv4Address(v))]
+                last = b
+            res.append(l2[last:])
+            exp.append("".join(res))
+        got = und.split("\n")
+        expl = "".join(exp).split("\n")
+        if got != expl:
+            k = next((i for i in range(min(len(got), len(expl))) if got[i] != expl[i]), 0)
+            # an image that is itself mask-shaped is deliberately left alone in both directions
+            ctx.fail("--undo of the anonymized file does not restore the (canonicalised) input", {"line": lines[k] if k < len(lines) else None, "options": opts},
+                     got[k] if k < len(got) else None, expl[k] if k < len(expl) else None, label="impl-file")
+    ctx.search_stats_file = {"file_roundtrips": len(froms)}
+    ctx.evaluations = 2 * (len(fwd) + len(warm0)) + 2 * len(froms)
     ctx.distinct_nontrivial = nt
-    ctx.search_stats = {"cold_undo_cases": len(fwd), "warm_cases": len(warm0), "addresses_undone_cold_with_image_ne_original": nt}
+    ctx.search_stats = {"cold_undo_cases": len(fwd), "warm_cases": len(warm0), "addresses_undone_cold_with_image_ne_original": nt, "file_level_main_roundtrips": len(froms)}
     ctx.samples = [{"case": next(c for c in cold_i if c), "impl": next(r for r in raw_i if r)}, {"case": next(c for c in warm_i if c), "impl": next(r for r in wraw_i if r)}]
